@@ -93,7 +93,13 @@ def build_container(kind, sigs, dt, ctx, tag):
 	elif kind in ('pylist-mixed', 'siglist-mixed'):
 		# references of different integer widths in one list (a list-backed collection only records the type of its first element)
 		r_ = random.Random(tag)
-		arrs = [np.array(s, dtype=r_.choice(M.DTYPES)) for s in sigs]
+		arrs = []
+		for s in sigs:
+			d_ = r_.choice(M.DTYPES)
+			isz = np.dtype(d_).itemsize
+			# wider elements also hold values that the narrower ones cannot represent (the first element's width says nothing about the rest)
+			ext = ({x + 2 ** 16 for x in list(s)[:3]} if isz >= 4 else set()) | ({x + 2 ** 32 for x in list(s)[:2]} if isz == 8 else set())
+			arrs.append(np.array(sorted(set(s) | ext), dtype=d_))
 		c = list(arrs) if kind == 'pylist-mixed' else SignatureList(list(arrs), ks)
 	elif kind == 'pylist':
 		c = list(arrs)
